@@ -21,7 +21,7 @@ import (
 	"github.com/flamego/flamego/verifharness/internal/rt"
 )
 
-const rule = "case = a valid route set in which a random subset of routes gets Headers(...) 1..3 times with 0..2 pairs each (the last call is the truth), routes registered through Get / Route / Routes(\"GET,POST\") / Routes(\"get, Post\") / Routes(path, \"GET\", \"POST\") / Any, incl. fully static and optional routes; requests built from route instances (both forms, every method) with random header sets (absent, empty, matching, non-matching, other case of the name, repeated fields whose values agree on the verdict). " +
+const rule = "case = a valid route set in which a random subset of routes gets Headers(...) 1..3 times with 0..2 pairs each (the last call is the truth), routes registered through Get / Route / Routes(\"GET,POST\") / Routes(\"get, Post\") / Routes(path, \"GET\", \"POST\") / Any, incl. fully static and optional routes; requests built from route instances (both forms, every method) with random header sets (absent, empty, matching, non-matching, 4..9 KB long with a verdict that hinges on the last byte, other case of the name, repeated fields whose values agree on the verdict). " +
 	"Oracle: reference matcher with the gate 'every constrained header has a non-empty value matched by its expression' applied to both forms and all methods of the route; the handler that ran (or not-found) must be the reference winner. " +
 	"non-trivial = a case with a request whose path is admitted by a constrained route whose constraints fail (so another route or not-found must take it), or that reaches a constrained route through its short form, a non-first method or a fully static path; distinct by case text"
 
@@ -134,7 +134,9 @@ func checkCase(c Case) (out evid.Outcome) {
 		want := model.Match(routes, q.P, hdr, nil)
 		ran, notFound = -1, false
 		rec := httptest.NewRecorder()
-		f.ServeHTTP(rec, rt.NewRequest(q.M, q.P, hdr))
+		hreq := q.HTTP()
+		hreq.Header = hdr
+		f.ServeHTTP(rec, hreq)
 		// classification
 		ungated := model.Admitting(routes, q.P, hdr, nogate)
 		gated := model.Admitting(routes, q.P, hdr, nil)
@@ -216,8 +218,20 @@ func show(c Case) string {
 // ---- generator -----------------------------------------------------------------
 
 var hdrNames = []string{"X-Api", "x-api", "Accept", "User-Agent", "X-B"}
-var hdrExprs = []string{"", "^v1$", "Caddy", "[0-9]+", "^(a|b)$"}
-var hdrVals = []string{"v1", "v12", "Caddy/2", "x", "7", "a", "", "ab"}
+var hdrExprs = []string{"", "^v1$", "Caddy", "[0-9]+", "^(a|b)$", "^[0-9a-f]+$", "(?i)^caddy", "a$", "^[a-z0-9/ ]*$"}
+var hdrVals = []string{"v1", "v12", "Caddy/2", "x", "7", "a", "", "ab", "CADDY", "deadbeef", "7a"}
+
+// hdrValue draws a header value: mostly from the pool, sometimes a very long
+// one (4..9 KB, beyond any buffer a matcher might use) whose verdict may hinge
+// on its last byte.
+func hdrValue(t *rapid.T) string {
+	v := hdrVals[rapid.IntRange(0, len(hdrVals)-1).Draw(t, "hv")]
+	if v == "" || rapid.IntRange(0, 11).Draw(t, "long") != 0 {
+		return v
+	}
+	n := rapid.IntRange(4000, 9000).Draw(t, "longlen")
+	return strings.Repeat(v, n/len(v)+1) + []string{"", "!", "a", "7", " "}[rapid.IntRange(0, 4).Draw(t, "tail")]
+}
 
 func genHeaders(t *rapid.T) []string {
 	// 0 pairs is a legal call too: it replaces the previous set by the empty one
@@ -275,9 +289,9 @@ func genCase(t *rapid.T) Case {
 			switch rapid.IntRange(0, 3).Draw(t, "hk") {
 			case 0:
 			case 1:
-				reqs[i].H = append(reqs[i].H, [2]string{name, hdrVals[rapid.IntRange(0, len(hdrVals)-1).Draw(t, "hv")]})
+				reqs[i].H = append(reqs[i].H, [2]string{name, hdrValue(t)})
 			case 2:
-				reqs[i].H = append(reqs[i].H, [2]string{strings.ToLower(name), hdrVals[rapid.IntRange(0, len(hdrVals)-1).Draw(t, "hv")]})
+				reqs[i].H = append(reqs[i].H, [2]string{strings.ToLower(name), hdrValue(t)})
 			default:
 				reqs[i].H = append(reqs[i].H, [2]string{name, "v1"})
 			}
